@@ -454,18 +454,20 @@ class Ctx:
     def sample(self, obj: Any) -> None:
         self.sample_slot = obj
 
-    def violation(self, sig: str, detail: Any = None) -> None:
+    def violation(self, sig: str, detail: Any = None, values: dict | None = None) -> None:
+        """values: name -> int for the symbolic variables, when the caller's own solver query
+        (e.g. a semantic obligation) produced the witness; otherwise a model of the path condition is used"""
         n = self.sig_counts.get(sig, 0)
         self.sig_counts[sig] = n + 1
         self.stats.counters['violating_paths'] = self.stats.counters.get('violating_paths', 0) + 1
         if n < self.keep_per_sig:
-            env = self._model()
+            env = self._model() if values is None else []
             self.stats.violations.append(
                 {
                     'sig': sig,
                     'detail': detail if isinstance(detail, (str, int, type(None), list, dict)) else repr(detail),
                     'choices': list(self.choices),
-                    'ints': [val.as_long() for _, val in env],
+                    'ints': [val.as_long() for _, val in env] if values is None else [values.get(name, lo) for name, _, lo, _ in self.vars],
                     'trail': list(self.trail[: self.pos]),
                 }
             )
@@ -491,6 +493,7 @@ class Ctx:
             self.stack.pop()
             self.synced -= 1
         self.trail = list(trail)
+        self.path_id = getattr(self, 'path_id', 0) + 1
         self.pos = 0
         self.nvars = 0
         self.vars = []
@@ -544,6 +547,7 @@ class ConcreteCtx:
     """Replays one counterexample with plain Python ints (no proxies)."""
 
     symbolic = False
+    path_id = 0
 
     def __init__(self, choices: list[int], ints: list[int]):
         self._choices = list(choices)
@@ -575,7 +579,7 @@ class ConcreteCtx:
     def sample(self, obj: Any) -> None:
         pass
 
-    def violation(self, sig: str, detail: Any = None) -> None:
+    def violation(self, sig: str, detail: Any = None, values: dict | None = None) -> None:
         self.violations.append({'sig': sig, 'detail': detail if isinstance(detail, (str, int, type(None), list, dict)) else repr(detail)})
         raise ViolationFound()
 
